@@ -13,6 +13,7 @@ Names are numbers (alphabetical rank of the entity name, assigned by the caller)
     schema <k> {name abs k s.. m t.. expr|-}*       -> S k   set the schema (expr prefix code: e:<n> | o<k> .. | a . . | x . .)
     collect                    -> T C[ ... ] | T none        Build.collectOf of the schema
     legal n n ..               -> L 0 | L 1         Spec.Legal of the schema
+    implok                     -> I 0 | I 1         hypothesis ImplicitAgree of C08_head_meaning holds for every entity
 -/
 open StepModel.Complex StepModel.Complex.Match
 
@@ -143,6 +144,17 @@ def handle (s : DState) (line : String) : DState × String :=
     match parseCollect rest with
     | some c => ({ s with collect := c }, "T " ++ showCollect c)
     | none => (s, "bad-op")
+  | ["implok"] =>
+    -- hypothesis `ImplicitAgree` of C08_head_meaning, for every entity that has subtypes
+    let T := fun n => entTree s.schema 400 n
+    let ok := s.schema.all (fun e =>
+      e.subs.isEmpty ||
+      (match (match e.expr with | none => some [] | some x => exprKids T .superHead x) with
+       | none => false
+       | some b =>
+         let known := match e.expr with | none => [] | some _ => e.name :: leavesL b
+         e.subs.filter (fun n => !known.contains n) == e.implicit))
+    (s, if ok then "I 1" else "I 0")
   | ["wf"] => (s, if s.collect.all headWF then "W 1" else "W 0")
   | "mult" :: rest =>
     match nats rest with
